@@ -46,6 +46,9 @@ def _guards(safe_param):
         'user:getattr:__iter__': 'True', 'user:getattr:__getitem__': 'True', 'user:getattr:__class__': 'True',
         'user:getattr:__mro__': 'True', 'user:getattr:__bases__': 'True', 'user:getattr:__file__': 'True',
         'user:getattr:__name__': 'True', 'user:getattr:__module__': 'True',
+        # keys() of a mapping found in a namespace: a plain method call, not one of the special methods the property
+        # lists; what it returns is iterated by builtin code when it is the view of a builtin dict
+        'user:getattr:keys': 'True',
         # .values() is looked up on the object: builtin code only for an exact builtin dict
         'user:getattr:values': pre + 'type(OPERAND) in ALLOWED_GETITEM_TYPES',
     }
@@ -112,6 +115,14 @@ _getitem = _c('py__simple_getitem__', {'index': ANY, 'safe': BOOL}, True,
               call=lambda a: a.py__simple_getitem__(0, safe=True))
 _getitem_all = _c('py__getitem__all_values', {'safe': BOOL}, True, unroll={0: 2, 1: 2},
                   call=lambda a: a.py__getitem__all_values(safe=True))
+_key_paths = Contract(
+    id='C13.DirectObjectAccess.get_key_paths.iter_partial_keys', prop='C13',
+    clause='listing the keys of a mapping for dict-key completion goes through keys() and the builtin iteration of '
+           'that view: the mapping\'s own (possibly user-defined) __iter__ / __getitem__ / __len__ is never used',
+    file='jedi/inference/compiled/access.py', qualname='DirectObjectAccess.get_key_paths.iter_partial_keys',
+    params={}, free={'self': _DOA}, families=['DOA', 'Live', 'Type'], yields=_L,
+    effects_allowed=[], effect_guard=_guards(False), safety=False, unroll={0: 2}, cover=True,
+)
 _iter_list = _c('py__iter__list', {}, False, unroll={0: 2}, call=lambda a: a.py__iter__list())
 _class = _c('py__class__', {}, False)
 _bases = _c('py__bases__', {}, False, unroll={0: 2})
@@ -127,6 +138,8 @@ FAMILIES = [
         'CompiledValue.execute_annotation', params=[('arguments', Opt(ANY))], ret=Seq(ANY), pure=True, assumed=True,
         note='the values an annotation object stands for (a value set, here a sequence); empty if unresolvable')}),
     Family('Live', methods={
+        'keys': FnSpec('dict.keys', ret=_L, pure=True, assumed=True, ensures=['builtin_view(result)'],
+                       note='a keys view is iterated by builtin code (dict_keys.__iter__), not by the mapping\'s __iter__'),
         'values': FnSpec('dict.values', ret=_L, pure=True, assumed=True,
                          ensures=['implies(type(self) in ALLOWED_GETITEM_TYPES, builtin_view(result))'],
                          note='the values view of an exact builtin dict is iterated by builtin code'),
@@ -260,7 +273,7 @@ _filter_get = Contract(
     concrete_ensures=['all(n in result for n in DIR)', 'implies(not unsafe, GETTER_CALLS == [])'],
 )
 
-CONTRACTS = [_bool, _has_iter, _getitem, _getitem_all, _iter_list, _static, _filter_get]
+CONTRACTS = [_bool, _has_iter, _getitem, _getitem_all, _iter_list, _key_paths, _static, _filter_get]
 
 
 def register(reg):
